@@ -5,7 +5,6 @@ CONSTANTS
   Deltas = {1, 2}
   MaxDepth = 6
   MaxK = 2
-  Fin = TRUE
 CONSTRAINT LBound
 VIEW LView
 INVARIANT InvShape
